@@ -1,3 +1,663 @@
 import BarterModel.Model.Book
+/-! Lemmas about the order-book model (`Model/Book.lean`); used by `Props/C05.lean` (and C06). -/
 namespace BarterModel.Book
+
+theorem Side.before_irrefl (s : Side) (a : Rat) : s.before a a = false := by
+  cases s <;> simp [Side.before, Rat.lt_irrefl]
+
+theorem Side.before_trans {s : Side} {a b c : Rat} (h1 : s.before a b = true) (h2 : s.before b c = true) :
+    s.before a c = true := by
+  cases s <;> simp [Side.before] at * <;> grind
+
+theorem Side.before_asymm {s : Side} {a b : Rat} (h1 : s.before a b = true) : s.before b a = false := by
+  cases s <;> simp [Side.before] at * <;> grind
+
+theorem Side.before_ne {s : Side} {a b : Rat} (h1 : s.before a b = true) : a ≠ b := by
+  intro h; subst h; simp [Side.before_irrefl] at h1
+
+theorem Side.before_total {s : Side} {a b : Rat} (h : a ≠ b) : s.before a b = true ∨ s.before b a = true := by
+  cases s <;> simp [Side.before] <;> grind
+
+theorem Side.cmp_lt_iff {s : Side} {x p : Rat} : s.cmp x p = .lt ↔ s.before x p = true := by
+  cases s <;> simp [Side.cmp, Side.before, cmpRat] <;> grind [Ordering.swap]
+
+theorem Side.cmp_eq_iff {s : Side} {x p : Rat} : s.cmp x p = .eq ↔ x = p := by
+  cases s <;> simp [Side.cmp, cmpRat] <;> grind [Ordering.swap]
+
+theorem Side.cmp_gt_iff {s : Side} {x p : Rat} : s.cmp x p = .gt ↔ s.before p x = true := by
+  cases s <;> simp [Side.cmp, Side.before, cmpRat] <;> grind [Ordering.swap]
+
+
+
+theorem abs_eq_zero_of_not_mem {ls : List Level} {p : Rat} (h : ∀ x ∈ ls, x.price ≠ p) : abs ls p = 0 := by
+  induction ls with
+  | nil => rfl
+  | cons x xs ih =>
+    simp only [abs]
+    rw [if_neg (h x (by simp))]
+    exact ih (fun y hy => h y (by simp [hy]))
+
+theorem abs_ne_zero_mem {ls : List Level} {p : Rat} (h : abs ls p ≠ 0) : ∃ x ∈ ls, x.price = p ∧ x.amount = abs ls p := by
+  induction ls with
+  | nil => simp [abs] at h
+  | cons x xs ih =>
+    simp only [abs] at h ⊢
+    by_cases hx : x.price = p
+    · simp [hx]
+    · simp only [if_neg hx] at h ⊢
+      obtain ⟨y, hy, h1, h2⟩ := ih h
+      exact ⟨y, by simp [hy], h1, h2⟩
+
+theorem upsertSingle_price {s : Side} {n : Level} {ls : List Level} {y : Level}
+    (h : y ∈ upsertSingle s n ls) : y.price = n.price ∨ ∃ x ∈ ls, x.price = y.price := by
+  induction ls with
+  | nil =>
+    simp only [upsertSingle] at h
+    split at h <;> simp_all
+  | cons x xs ih =>
+    simp only [upsertSingle] at h
+    split at h
+    · simp only [List.mem_cons] at h
+      rcases h with h | h
+      · right; exact ⟨x, by simp, by rw [h]⟩
+      · rcases ih h with h | ⟨z, hz, hz'⟩
+        · left; exact h
+        · right; exact ⟨z, by simp [hz], hz'⟩
+    · split at h
+      · right; exact ⟨y, by simp [h], rfl⟩
+      · simp only [List.mem_cons] at h
+        rcases h with h | h
+        · right; exact ⟨x, by simp, by rw [h]⟩
+        · right; exact ⟨y, by simp [h], rfl⟩
+    · split at h
+      · right; exact ⟨y, h, rfl⟩
+      · simp only [List.mem_cons] at h
+        rcases h with h | h
+        · left; rw [h]
+        · right; exact ⟨y, by simpa using h, rfl⟩
+
+theorem sorted_upsertSingle {s : Side} {n : Level} {ls : List Level} (h : Sorted s ls) :
+    Sorted s (upsertSingle s n ls) := by
+  induction ls with
+  | nil => simp only [upsertSingle]; split <;> simp [Sorted]
+  | cons x xs ih =>
+    have hx := List.pairwise_cons.mp h
+    simp only [upsertSingle]
+    split
+    · rename_i hc
+      rw [Side.cmp_lt_iff] at hc
+      refine List.pairwise_cons.mpr ⟨?_, ih hx.2⟩
+      intro y hy
+      rcases upsertSingle_price hy with h1 | ⟨z, hz, hz'⟩
+      · rw [h1]; exact hc
+      · rw [← hz']; exact hx.1 z hz
+    · rename_i hc
+      rw [Side.cmp_eq_iff] at hc
+      split
+      · exact hx.2
+      · exact List.pairwise_cons.mpr ⟨hx.1, hx.2⟩
+    · rename_i hc
+      rw [Side.cmp_gt_iff] at hc
+      split
+      · exact h
+      · refine List.pairwise_cons.mpr ⟨?_, h⟩
+        intro y hy
+        simp only [List.mem_cons] at hy
+        rcases hy with hy | hy
+        · rw [hy]; exact hc
+        · exact Side.before_trans hc (hx.1 y hy)
+
+theorem nonZero_upsertSingle {s : Side} {n : Level} {ls : List Level} (h : NonZero ls) :
+    NonZero (upsertSingle s n ls) := by
+  induction ls with
+  | nil => simp only [upsertSingle]; split <;> simp_all [NonZero]
+  | cons x xs ih =>
+    have ih := ih (fun y hy => h y (by simp [hy]))
+    simp only [upsertSingle]
+    split
+    · intro y hy
+      simp only [List.mem_cons] at hy
+      rcases hy with hy | hy
+      · exact h y (by simp [hy])
+      · exact ih y hy
+    · split
+      · exact fun y hy => h y (by simp [hy])
+      · intro y hy
+        simp only [List.mem_cons] at hy
+        rcases hy with hy | hy
+        · subst hy; assumption
+        · exact h y (by simp [hy])
+    · split
+      · exact h
+      · intro y hy
+        simp only [List.mem_cons] at hy
+        rcases hy with hy | hy
+        · subst hy; assumption
+        · exact h y (by simpa using hy)
+
+theorem abs_upsertSingle {s : Side} {n : Level} {ls : List Level} (h : Sorted s ls) :
+    abs (upsertSingle s n ls) = setLevel (abs ls) n.price n.amount := by
+  induction ls with
+  | nil =>
+    funext q
+    simp only [upsertSingle, setLevel]
+    split <;> simp_all [abs] <;> grind
+  | cons x xs ih =>
+    have hx := List.pairwise_cons.mp h
+    have ih := ih hx.2
+    funext q
+    simp only [upsertSingle]
+    split
+    · rename_i hc
+      rw [Side.cmp_lt_iff] at hc
+      have := Side.before_ne hc
+      simp only [abs, ih, setLevel]
+      grind
+    · rename_i hc
+      rw [Side.cmp_eq_iff] at hc
+      have h0 : abs xs x.price = 0 :=
+        abs_eq_zero_of_not_mem (fun y hy => (Side.before_ne (hx.1 y hy)).symm)
+      split
+      · simp only [abs, setLevel]; grind
+      · simp only [abs, setLevel]; grind
+    · rename_i hc
+      rw [Side.cmp_gt_iff] at hc
+      have h0 : abs (x :: xs) n.price = 0 := by
+        apply abs_eq_zero_of_not_mem
+        intro y hy
+        simp only [List.mem_cons] at hy
+        rcases hy with hy | hy
+        · rw [hy]; exact (Side.before_ne hc).symm
+        · exact (Side.before_ne (Side.before_trans hc (hx.1 y hy))).symm
+      split
+      · simp only [setLevel]; grind
+      · simp only [abs, setLevel]; grind
+
+
+theorem sorted_upsert {s : Side} {ls us : List Level} (h : Sorted s ls) : Sorted s (upsert s ls us) := by
+  induction us generalizing ls with
+  | nil => exact h
+  | cons u us ih => exact ih (sorted_upsertSingle h)
+
+theorem nonZero_upsert {s : Side} {ls us : List Level} (h : NonZero ls) : NonZero (upsert s ls us) := by
+  induction us generalizing ls with
+  | nil => exact h
+  | cons u us ih => exact ih (nonZero_upsertSingle h)
+
+theorem abs_upsert {s : Side} {ls us : List Level} (h : Sorted s ls) :
+    abs (upsert s ls us) = applyLevels (abs ls) us := by
+  induction us generalizing ls with
+  | nil => rfl
+  | cons u us ih =>
+    simp only [upsert, applyLevels, List.foldl_cons]
+    have := ih (sorted_upsertSingle (n := u) h)
+    simp only [upsert, applyLevels] at this
+    rw [this, abs_upsertSingle h]
+
+theorem sorted_tail_abs_zero {s : Side} {x : Level} {xs : List Level} (h : Sorted s (x :: xs)) :
+    abs xs x.price = 0 :=
+  abs_eq_zero_of_not_mem (fun y hy => (Side.before_ne ((List.pairwise_cons.mp h).1 y hy)).symm)
+
+theorem abs_of_mem {s : Side} {ls : List Level} {l : Level} (h : Sorted s ls) (hl : l ∈ ls) :
+    abs ls l.price = l.amount := by
+  induction ls with
+  | nil => simp at hl
+  | cons x xs ih =>
+    have hx := List.pairwise_cons.mp h
+    simp only [List.mem_cons] at hl
+    rcases hl with hl | hl
+    · subst hl; simp [abs]
+    · have := Side.before_ne (hx.1 l hl)
+      simp only [abs, if_neg this]
+      exact ih hx.2 hl
+
+/-- the stored list holds exactly the non-zero points of the function it denotes -/
+theorem mem_iff_abs {s : Side} {ls : List Level} (h : Sorted s ls) (hz : NonZero ls) (l : Level) :
+    l ∈ ls ↔ (abs ls l.price = l.amount ∧ l.amount ≠ 0) := by
+  constructor
+  · intro hl; exact ⟨abs_of_mem h hl, hz l hl⟩
+  · intro ⟨h1, h2⟩
+    obtain ⟨x, hx, hp, ha⟩ := abs_ne_zero_mem (ls := ls) (p := l.price) (by rw [h1]; exact h2)
+    have : x = l := by
+      cases x; cases l; simp_all
+    exact this ▸ hx
+
+theorem canonical {s : Side} {a b : List Level} (ha : Sorted s a) (hb : Sorted s b)
+    (za : NonZero a) (zb : NonZero b) (h : abs a = abs b) : a = b := by
+  induction a generalizing b with
+  | nil =>
+    cases b with
+    | nil => rfl
+    | cons y ys =>
+      have := congrFun h y.price
+      simp [abs] at this
+      exact absurd this.symm (zb y (by simp))
+  | cons x xs ih =>
+    cases b with
+    | nil =>
+      have := congrFun h x.price
+      simp [abs] at this
+      exact absurd this (za x (by simp))
+    | cons y ys =>
+      have hx := List.pairwise_cons.mp ha
+      have hy := List.pairwise_cons.mp hb
+      have hxz := za x (by simp)
+      have hyz := zb y (by simp)
+      have hp : x.price = y.price := by
+        have h1 : abs (y :: ys) x.price ≠ 0 := by rw [← h]; simpa [abs] using hxz
+        have h2 : abs (x :: xs) y.price ≠ 0 := by rw [h]; simpa [abs] using hyz
+        obtain ⟨z, hz, hzp, _⟩ := abs_ne_zero_mem h1
+        obtain ⟨w, hw, hwp, _⟩ := abs_ne_zero_mem h2
+        simp only [List.mem_cons] at hz hw
+        rcases hz with hz | hz
+        · rw [← hzp, hz]
+        · rcases hw with hw | hw
+          · rw [← hwp, hw]
+          · have b1 := hy.1 z hz
+            have b2 := hx.1 w hw
+            rw [hzp] at b1; rw [hwp] at b2
+            have := Side.before_asymm b1
+            simp [b2] at this
+      have hamt : x.amount = y.amount := by
+        have := congrFun h x.price
+        simpa [abs, hp] using this
+      have hxy : x = y := by cases x; cases y; simp_all
+      subst hxy
+      congr 1
+      apply ih hx.2 hy.2 (fun l hl => za l (by simp [hl])) (fun l hl => zb l (by simp [hl]))
+      funext q
+      by_cases hq : x.price = q
+      · subst hq; rw [sorted_tail_abs_zero ha, sorted_tail_abs_zero hb]
+      · have := congrFun h q
+        simpa [abs, hq] using this
+
+/-! sorting -/
+
+theorem Side.le_trans' (s : Side) (a b c : Level) (h1 : s.le a b = true) (h2 : s.le b c = true) : s.le a c = true := by
+  cases s <;> simp [Side.le, Side.before] at * <;> grind
+
+theorem Side.le_total' (s : Side) (a b : Level) : (s.le a b || s.le b a) = true := by
+  cases s <;> simp [Side.le, Side.before] <;> grind
+
+theorem sortLevels_perm (s : Side) (ls : List Level) : (sortLevels s ls).Perm ls :=
+  List.mergeSort_perm ls s.le
+
+theorem sorted_prices_nodup {s : Side} {ls : List Level} (h : Sorted s ls) : (ls.map Level.price).Nodup := by
+  unfold List.Nodup
+  rw [List.pairwise_map]
+  exact h.imp (fun hb => Side.before_ne hb)
+
+theorem sorted_of_le_nodup {s : Side} {ls : List Level} (h1 : ls.Pairwise (fun a b => s.le a b = true))
+    (h2 : (ls.map Level.price).Nodup) : Sorted s ls := by
+  unfold List.Nodup at h2
+  rw [List.pairwise_map] at h2
+  refine (h1.and h2).imp ?_
+  intro a b ⟨hle, hne⟩
+  rcases Side.before_total (s := s) hne with h | h
+  · exact h
+  · simp [Side.le, h] at hle
+
+theorem sorted_sortLevels {s : Side} {ls : List Level} (h : (ls.map Level.price).Nodup) :
+    Sorted s (sortLevels s ls) := by
+  apply sorted_of_le_nodup (List.pairwise_mergeSort (Side.le_trans' s) (Side.le_total' s) ls)
+  exact ((sortLevels_perm s ls).map Level.price).nodup_iff.mpr h
+
+theorem sortLevels_of_sorted {s : Side} {ls : List Level} (h : Sorted s ls) : sortLevels s ls = ls := by
+  apply List.mergeSort_of_pairwise
+  exact h.imp (fun hb => by simp [Side.le, Side.before_asymm hb])
+
+theorem nonZero_sortLevels {s : Side} {ls : List Level} (h : NonZero ls) : NonZero (sortLevels s ls) :=
+  fun l hl => h l ((sortLevels_perm s ls).mem_iff.mp hl)
+
+theorem abs_perm {a b : List Level} (h : a.Perm b) (hn : (a.map Level.price).Nodup) : abs a = abs b := by
+  induction h with
+  | nil => rfl
+  | cons x _ ih =>
+    funext q
+    simp only [List.map_cons, List.nodup_cons] at hn
+    simp only [abs, ih hn.2]
+  | swap x y l =>
+    funext q
+    simp only [List.map_cons, List.nodup_cons, List.mem_cons, not_or] at hn
+    simp only [abs]
+    grind
+  | trans h1 _ ih1 ih2 =>
+    rw [ih1 hn, ih2 ((h1.map Level.price).nodup_iff.mp hn)]
+
+theorem abs_sortLevels {s : Side} {ls : List Level} (h : (ls.map Level.price).Nodup) :
+    abs (sortLevels s ls) = abs ls :=
+  abs_perm (sortLevels_perm s ls) (((sortLevels_perm s ls).map Level.price).nodup_iff.mpr h)
+
+
+/-! ## the executable specification `PMap` -/
+
+
+theorem abs_filter_ne (m : List Level) (p q : Rat) :
+    abs (m.filter (fun e => e.price ≠ p)) q = if q = p then 0 else abs m q := by
+  induction m with
+  | nil => simp [abs]
+  | cons x xs ih =>
+    simp only [List.filter_cons]
+    by_cases hx : x.price = p
+    · simp only [hx, ne_eq, not_true_eq_false, decide_false, Bool.false_eq_true, ↓reduceIte, ih, abs]
+      grind
+    · simp only [ne_eq, hx, not_false_eq_true, decide_true, ↓reduceIte, abs, ih]
+      grind
+
+theorem PMap.abs_set (m : PMap) (p a : Rat) : abs (m.set p a) = setLevel (abs m) p a := by
+  funext q
+  simp only [PMap.set, setLevel]
+  split
+  · rename_i h; rw [abs_filter_ne, h]
+  · simp only [abs, abs_filter_ne]; grind
+
+theorem PMap.wf_set {m : PMap} (h : m.WF) (p a : Rat) : (m.set p a).WF := by
+  have hsub : (m.filter (fun e => e.price ≠ p)).Sublist m := List.filter_sublist
+  have hnd : ((m.filter (fun e => e.price ≠ p)).map Level.price).Nodup :=
+    List.Nodup.sublist (hsub.map Level.price) h.1
+  have hnz : NonZero (m.filter (fun e => e.price ≠ p)) := fun l hl => h.2 l (hsub.subset hl)
+  simp only [PMap.set]
+  split
+  · exact ⟨hnd, hnz⟩
+  · rename_i ha
+    refine ⟨?_, ?_⟩
+    · simp only [List.map_cons, List.nodup_cons]
+      refine ⟨?_, hnd⟩
+      simp only [List.mem_map, List.mem_filter]
+      rintro ⟨e, ⟨_, he⟩, hp⟩
+      simp [hp] at he
+    · intro l hl
+      simp only [List.mem_cons] at hl
+      rcases hl with hl | hl
+      · subst hl; exact ha
+      · exact hnz l hl
+
+theorem PMap.abs_apply (m : PMap) (cs : List Level) : abs (m.apply cs) = applyLevels (abs m) cs := by
+  induction cs generalizing m with
+  | nil => rfl
+  | cons c cs ih =>
+    simp only [PMap.apply, applyLevels, List.foldl_cons]
+    have := ih (m.set c.price c.amount)
+    simp only [PMap.apply, applyLevels] at this
+    rw [this, PMap.abs_set]
+
+theorem PMap.wf_apply {m : PMap} (h : m.WF) (cs : List Level) : (m.apply cs).WF := by
+  induction cs generalizing m with
+  | nil => exact h
+  | cons c cs ih => exact ih (PMap.wf_set h c.price c.amount)
+
+theorem PMap.sorted_levels {m : PMap} (h : m.WF) (s : Side) : Sorted s (m.levels s) :=
+  sorted_sortLevels h.1
+
+theorem PMap.nonZero_levels {m : PMap} (h : m.WF) (s : Side) : NonZero (m.levels s) :=
+  nonZero_sortLevels h.2
+
+theorem PMap.abs_levels {m : PMap} (h : m.WF) (s : Side) : abs (m.levels s) = abs m :=
+  abs_sortLevels h.1
+
+theorem PMap.levels_perm (m : PMap) (s : Side) : (m.levels s).Perm m := sortLevels_perm s m
+
+/-- the declaratively defined best entry is the first level in book order -/
+theorem PMap.best_eq_head {m : PMap} (h : m.WF) (s : Side) : m.best s = (m.levels s).head? := by
+  have hperm := PMap.levels_perm m s
+  have hsorted := PMap.sorted_levels h s
+  cases hl : m.levels s with
+  | nil =>
+    have : m = [] := by
+      have := hperm; rw [hl] at this; exact List.Perm.eq_nil this.symm
+    subst this; simp [PMap.best]
+  | cons x xs =>
+    rw [hl] at hperm hsorted
+    have hx := List.pairwise_cons.mp hsorted
+    have hxm : x ∈ m := hperm.mem_iff.mp (by simp)
+    -- x satisfies the predicate
+    have hpx : (m.all fun y => y.price = x.price || s.before x.price y.price) = true := by
+      rw [List.all_eq_true]
+      intro y hy
+      have : y ∈ x :: xs := hperm.mem_iff.mpr hy
+      simp only [List.mem_cons] at this
+      rcases this with h1 | h1
+      · simp [h1]
+      · simp [hx.1 y h1]
+    cases hb : m.best s with
+    | none =>
+      simp only [PMap.best] at hb
+      rw [List.find?_eq_none] at hb
+      exact absurd hpx (hb x hxm)
+    | some l =>
+      simp only [PMap.best] at hb
+      have hlm := List.mem_of_find?_eq_some hb
+      have hpl := List.find?_some hb
+      rw [List.all_eq_true] at hpl hpx
+      have h1 := hpl x hxm
+      have h2 := hpx l hlm
+      simp only [Bool.or_eq_true, decide_eq_true_eq] at h1 h2
+      have hp : l.price = x.price := by
+        rcases h1 with h1 | h1
+        · exact h1.symm
+        · rcases h2 with h2 | h2
+          · exact h2
+          · have := Side.before_asymm h1; simp [h2] at this
+      -- distinct prices in m
+      have hnd := h.1
+      have : l = x := by
+        have hinj : ∀ (ls : List Level), (ls.map Level.price).Nodup → l ∈ ls → x ∈ ls → l = x := by
+          intro ls
+          induction ls with
+          | nil => simp
+          | cons z zs ih =>
+            intro hn h1 h2
+            simp only [List.map_cons, List.nodup_cons, List.mem_map, not_exists, not_and] at hn
+            simp only [List.mem_cons] at h1 h2
+            rcases h1 with h1 | h1 <;> rcases h2 with h2 | h2
+            · rw [h1, h2]
+            · exact absurd (by rw [← h1, hp]) (hn.1 x h2)
+            · exact absurd (by rw [← h2, ← hp]) (hn.1 l h1)
+            · exact ih hn.2 h1 h2
+        exact hinj m hnd hlm hxm
+      simp [this]
+
+
+/-! ## whole-book lemmas -/
+
+theorem sortedBook_update {b : OrderBook} {ev : Event} (h : SortedBook b)
+    (hs : ∀ sn, ev = .snapshot sn → SortedBook sn) : SortedBook (b.update ev) := by
+  cases ev with
+  | snapshot sn => exact hs sn rfl
+  | update u => exact ⟨sorted_upsert h.bids, sorted_upsert h.asks⟩
+
+theorem wfBook_update {b : OrderBook} {ev : Event} (h : WFBook b)
+    (hs : ∀ sn, ev = .snapshot sn → WFBook sn) : WFBook (b.update ev) := by
+  cases ev with
+  | snapshot sn => exact hs sn rfl
+  | update u =>
+    exact { bids := sorted_upsert h.bids, asks := sorted_upsert h.asks,
+            bidsNonZero := nonZero_upsert h.bidsNonZero, asksNonZero := nonZero_upsert h.asksNonZero }
+
+theorem sortedBook_run {b : OrderBook} {evs : List Event} (h : SortedBook b)
+    (hs : ∀ sn, Event.snapshot sn ∈ evs → SortedBook sn) : SortedBook (b.run evs) := by
+  induction evs generalizing b with
+  | nil => exact h
+  | cons ev evs ih =>
+    simp only [OrderBook.run, List.foldl_cons]
+    exact ih (sortedBook_update h (fun sn he => hs sn (by simp [he]))) (fun sn he => hs sn (by simp [he]))
+
+theorem wfBook_run {b : OrderBook} {evs : List Event} (h : WFBook b)
+    (hs : ∀ sn, Event.snapshot sn ∈ evs → WFBook sn) : WFBook (b.run evs) := by
+  induction evs generalizing b with
+  | nil => exact h
+  | cons ev evs ih =>
+    simp only [OrderBook.run, List.foldl_cons]
+    exact ih (wfBook_update h (fun sn he => hs sn (by simp [he]))) (fun sn he => hs sn (by simp [he]))
+
+theorem wfBook_default : WFBook OrderBook.default :=
+  { bids := List.Pairwise.nil, asks := List.Pairwise.nil,
+    bidsNonZero := fun _ h => by simp [OrderBook.default] at h,
+    asksNonZero := fun _ h => by simp [OrderBook.default] at h }
+
+theorem absBook_update {b : OrderBook} (ev : Event) (h : SortedBook b) :
+    absBook (b.update ev) = (absBook b).step ev := by
+  cases ev with
+  | snapshot sn => rfl
+  | update u =>
+    simp only [OrderBook.update, absBook, FBook.step, abs_upsert h.bids, abs_upsert h.asks]
+
+theorem absBook_run {b : OrderBook} {evs : List Event} (h : SortedBook b)
+    (hs : ∀ sn, Event.snapshot sn ∈ evs → SortedBook sn) :
+    absBook (b.run evs) = (absBook b).run evs := by
+  induction evs generalizing b with
+  | nil => rfl
+  | cons ev evs ih =>
+    simp only [OrderBook.run, FBook.run, List.foldl_cons]
+    have h1 : SortedBook (b.update ev) := sortedBook_update h (fun sn he => hs sn (by simp [he]))
+    have h2 : ∀ sn, Event.snapshot sn ∈ evs → SortedBook sn := fun sn he => hs sn (by simp [he])
+    have := ih h1 h2
+    simp only [OrderBook.run, FBook.run] at this
+    rw [this, absBook_update ev h]
+
+theorem wfBook_new {seq : Nat} {bids asks : List Level}
+    (hb : (bids.map Level.price).Nodup) (ha : (asks.map Level.price).Nodup)
+    (zb : NonZero bids) (za : NonZero asks) : WFBook (OrderBook.new seq bids asks) :=
+  { bids := sorted_sortLevels hb, asks := sorted_sortLevels ha,
+    bidsNonZero := nonZero_sortLevels zb, asksNonZero := nonZero_sortLevels za }
+
+theorem sorted_take {s : Side} {ls : List Level} (h : Sorted s ls) (d : Nat) : Sorted s (ls.take d) :=
+  List.Pairwise.sublist (List.take_sublist d ls) h
+
+theorem snapshot_eq {b : OrderBook} (h : SortedBook b) (d : Nat) :
+    b.snapshot d = ⟨b.sequence, b.bids.take d, b.asks.take d⟩ := by
+  simp only [OrderBook.snapshot, sortLevels_of_sorted (sorted_take h.bids d),
+    sortLevels_of_sorted (sorted_take h.asks d)]
+
+/-! ## refinement of the executable specification -/
+
+theorem PMap.wf_of_sorted {s : Side} {ls : List Level} (h : Sorted s ls) (hz : NonZero ls) :
+    PMap.WF ls := ⟨sorted_prices_nodup h, hz⟩
+
+/-- coupling invariant between the concrete book and the abstract maps -/
+structure Refines (b : OrderBook) (s : Spec) : Prop where
+  wf : WFBook b
+  wfBids : s.bids.WF
+  wfAsks : s.asks.WF
+  bids : abs b.bids = abs s.bids
+  asks : abs b.asks = abs s.asks
+  seq : b.sequence = s.sequence
+
+theorem refines_init : Refines OrderBook.default Spec.init :=
+  { wf := wfBook_default, wfBids := ⟨List.Pairwise.nil, fun _ h => by simp [Spec.init] at h⟩,
+    wfAsks := ⟨List.Pairwise.nil, fun _ h => by simp [Spec.init] at h⟩,
+    bids := rfl, asks := rfl, seq := rfl }
+
+theorem refines_step {b : OrderBook} {s : Spec} {ev : Event} (h : Refines b s)
+    (hs : ∀ sn, ev = .snapshot sn → WFBook sn) : Refines (b.update ev) (s.step ev) := by
+  cases ev with
+  | snapshot sn =>
+    have hw := hs sn rfl
+    exact { wf := hw, wfBids := PMap.wf_of_sorted hw.bids hw.bidsNonZero,
+            wfAsks := PMap.wf_of_sorted hw.asks hw.asksNonZero, bids := rfl, asks := rfl, seq := rfl }
+  | update u =>
+    refine { wf := wfBook_update h.wf (fun _ he => by cases he), wfBids := PMap.wf_apply h.wfBids _,
+             wfAsks := PMap.wf_apply h.wfAsks _, bids := ?_, asks := ?_, seq := rfl }
+    · simp only [OrderBook.update, Spec.step, abs_upsert h.wf.bids, PMap.abs_apply, h.bids]
+    · simp only [OrderBook.update, Spec.step, abs_upsert h.wf.asks, PMap.abs_apply, h.asks]
+
+theorem refines_run {b : OrderBook} {s : Spec} {evs : List Event} (h : Refines b s)
+    (hs : ∀ sn, Event.snapshot sn ∈ evs → WFBook sn) : Refines (b.run evs) (s.run evs) := by
+  induction evs generalizing b s with
+  | nil => exact h
+  | cons ev evs ih =>
+    simp only [OrderBook.run, Spec.run, List.foldl_cons]
+    exact ih (refines_step h (fun sn he => hs sn (by simp [he]))) (fun sn he => hs sn (by simp [he]))
+
+theorem Refines.bids_eq {b : OrderBook} {s : Spec} (h : Refines b s) : b.bids = s.bids.levels .bids :=
+  canonical h.wf.bids (PMap.sorted_levels h.wfBids _) h.wf.bidsNonZero (PMap.nonZero_levels h.wfBids _)
+    (by rw [PMap.abs_levels h.wfBids, h.bids])
+
+theorem Refines.asks_eq {b : OrderBook} {s : Spec} (h : Refines b s) : b.asks = s.asks.levels .asks :=
+  canonical h.wf.asks (PMap.sorted_levels h.wfAsks _) h.wf.asksNonZero (PMap.nonZero_levels h.wfAsks _)
+    (by rw [PMap.abs_levels h.wfAsks, h.asks])
+
+theorem Refines.book_eq {b : OrderBook} {s : Spec} (h : Refines b s) : b = s.book := by
+  cases b
+  simp only [Spec.book, ← h.bids_eq, ← h.asks_eq, ← h.seq]
+
+theorem Refines.midPrice_eq {b : OrderBook} {s : Spec} (h : Refines b s) : b.midPrice = s.midPrice := by
+  simp only [OrderBook.midPrice, Spec.midPrice, PMap.best_eq_head h.wfBids, PMap.best_eq_head h.wfAsks,
+    ← h.bids_eq, ← h.asks_eq, Book.midPrice]
+
+theorem Refines.vwMidPrice_eq {b : OrderBook} {s : Spec} (h : Refines b s) :
+    b.volumeWeightedMidPrice = s.volumeWeightedMidPrice := by
+  simp only [OrderBook.volumeWeightedMidPrice, Spec.volumeWeightedMidPrice, PMap.best_eq_head h.wfBids,
+    PMap.best_eq_head h.wfAsks, ← h.bids_eq, ← h.asks_eq, Book.volumeWeightedMidPrice]
+
+theorem Refines.snapshot_eq {b : OrderBook} {s : Spec} (h : Refines b s) (d : Nat) :
+    b.snapshot d = s.snapshot d := by
+  rw [Book.snapshot_eq h.wf.toSortedBook d]
+  simp only [Spec.snapshot, ← h.bids_eq, ← h.asks_eq, ← h.seq]
+
+/-! ## best level as extremum of the function's support -/
+
+theorem head_is_best {s : Side} {ls : List Level} (h : Sorted s ls) (hz : NonZero ls) (l : Level)
+    (hl : ls.head? = some l) :
+    abs ls l.price = l.amount ∧ l.amount ≠ 0 ∧
+      ∀ q, abs ls q ≠ 0 → q = l.price ∨ s.before l.price q = true := by
+  obtain ⟨xs, rfl⟩ := List.head?_eq_some_iff.mp hl
+  refine ⟨by simp [abs], hz l (by simp), ?_⟩
+  intro q hq
+  obtain ⟨x, hx, hp, _⟩ := abs_ne_zero_mem hq
+  simp only [List.mem_cons] at hx
+  rcases hx with hx | hx
+  · left; rw [← hp, hx]
+  · right; rw [← hp]; exact (List.pairwise_cons.mp h).1 x hx
+
+theorem head_none_iff {ls : List Level} (hz : NonZero ls) : ls.head? = none ↔ ∀ q, abs ls q = 0 := by
+  cases ls with
+  | nil => simp [abs]
+  | cons x xs =>
+    simp only [List.head?_cons, reduceCtorEq, false_iff]
+    intro h
+    have := h x.price
+    simp [abs] at this
+    exact hz x (by simp) this
+
+/-! ## sequence -/
+
+theorem sequence_update (b : OrderBook) (ev : Event) : (b.update ev).sequence = ev.book.sequence := by
+  cases ev <;> rfl
+
+theorem sequence_run (b : OrderBook) (evs : List Event) :
+    (b.run evs).sequence = (evs.getLast?.map (·.book.sequence)).getD b.sequence := by
+  induction evs generalizing b with
+  | nil => rfl
+  | cons ev evs ih =>
+    simp only [OrderBook.run, List.foldl_cons]
+    have := ih (b.update ev)
+    simp only [OrderBook.run] at this
+    rw [this, List.getLast?_cons]
+    cases evs.getLast? with
+    | none => simp [sequence_update]
+    | some e => simp
+
+/-! ## manager -/
+
+theorem managerRun_eq (books : Books) (stream : List StreamEvent) :
+    managerRun books stream = books.map (fun kb => (kb.1, kb.2.run (eventsFor kb.1 stream))) := by
+  induction stream generalizing books with
+  | nil => simp [managerRun, eventsFor, OrderBook.run]
+  | cons ev stream ih =>
+    simp only [managerRun, List.foldl_cons]
+    have := ih (managerStep books ev)
+    simp only [managerRun] at this
+    rw [this]
+    cases ev with
+    | reconnecting => simp [managerStep, eventsFor]
+    | item k e =>
+      simp only [managerStep, List.map_map, eventsFor]
+      apply List.map_congr_left
+      intro kb _
+      by_cases hk : kb.1 = k
+      · simp [hk, OrderBook.run]
+      · have hk' : ¬ k = kb.1 := fun h => hk h.symm
+        simp [hk, hk']
+
 end BarterModel.Book
